@@ -1550,6 +1550,9 @@ class LangServer:
         present_conf_files = [
             os.path.isfile(os.path.join(self.root_path, f)) for f in default_conf_files
         ]
+        # A file explicitly requested with -c/--config that does not exist
+        if self.config != ".fortlsrc" and not present_conf_files[0]:
+            self.post_message(f"Configuration file '{self.config}' not found")
         if not any(present_conf_files):
             return None
 
